@@ -89,6 +89,11 @@ _POS_OF = {v: k for k, v in BASE.items()}
 
 
 def form(name, f):
+    if ":" in f:
+        # scale sweep: an identifier of exactly n characters (plain, or n characters inside a pair of delimiters), unique per position
+        kind, n = f.split(":")
+        body = (name + "_" + "abcdefghij_klmnopqrst_uvwxyz0123456789" * 8)[:int(n)]
+        return {"len": body, "Len": body.upper(), "dqlen": '"%s"' % body.capitalize(), "brlen": "[%s]" % body, "btlen": "`%s`" % body}[kind]
     return {"lower": name, "Mixed": name.capitalize(), "UPPER": name.upper(), "x_1": name + "_1", "dq": '"%s"' % name.capitalize(),
             "bt": "`%s`" % name.capitalize(), "br": "[%s]" % name.capitalize(), "dq_us": '"_%s_"' % name, "br_us": "[_%s_]" % name,
             "dq_sp": '"%s %s"' % (name.capitalize(), name), "dq_nest": '"[%s]"' % name, "bt_nest": '`"%s"`' % name,
@@ -137,6 +142,16 @@ def gen_cases(tier):
             cases.append({"kind": "id", "assign": {p: f for p in POS}, "nn": nn})
             for p in POS:
                 cases.append({"kind": "id", "assign": {p: f}, "nn": nn})
+        # scale sweep: every identifier length 4..130 (thorough ..300) in all naming positions at once, in each delimiter style; boundary
+        # lengths in one position at a time
+        for n in range(4, (300 if tier == "thorough" else 130) + 1):
+            for kind in ("len", "Len", "dqlen", "brlen", "btlen"):
+                if kind == "len" or n % 5 == ("Len", "dqlen", "brlen", "btlen").index(kind) or tier == "thorough":
+                    cases.append({"kind": "id", "assign": {p: "%s:%d" % (kind, n) for p in POS}, "nn": nn})
+        for n in (9, 10, 11, 30, 31, 32, 33, 63, 64, 65, 127, 128, 129, 255, 256, 257):
+            for p in POS:
+                cases.append({"kind": "id", "assign": {p: "len:%d" % n}, "nn": nn})
+                cases.append({"kind": "id", "assign": {p: "dqlen:%d" % n}, "nn": nn})
         if tier == "thorough":
             for p, q in itertools.combinations(POS, 2):
                 for f, g in itertools.product(FORMS[1:], repeat=2):
